@@ -113,7 +113,7 @@ REGISTRY["C16"] = dict(
     technique="CrossHair symbolic atom codes composing the input string / the expression tree, executed on the real parser, plugins, field types and searcher",
     text="Totality: every string of 3 atoms from a grammar-aware alphabet (thorough: 45 atoms, and 4 atoms over a 14-atom "
          "core) through 10 parser configurations returns a query or raises QueryParserError, and searching it raises at most QueryError.  "
-         "Meaning: generated expressions [NOT] o1 c1 [NOT] o2 [c2 [NOT] o3] with optional parentheses over 41 operand kinds select "
+         "Meaning: generated expressions [NOT] o1 c1 [NOT] o2 [c2 [NOT] o3] with optional parentheses over 40 operand kinds select "
          "exactly the documents of the documented reading (NOT > AND > OR > implicit group).",
     note=_BOUNDED)
 
